@@ -25,7 +25,7 @@ LEVEL_NOTE = ('partial: bookkeeping theorems over a hand model whose grid (shape
 TECHNIQUE = 'Lean 4 proof (ordered-field algebra with Int.ceil) over a hand model + differential correspondence at exact rationals; measured interpolation clause'
 GEN = ['Effects', 'Extent', 'FieldDispatch', 'FieldIdx', 'FieldMerge', 'PlaneRescale', 'RescaleGrid']     # every Gen module the model, lemmas, theorems and driver ops import (transitively)
 OPS = ['C17']
-RULE = ('direct util.rescale calls (30 per quick run) on 12..32 grids with shape= absent / scalar / pair (half to 7 more than the image), real or complex (amplitude times exp(i phase)) smooth images, order 1/3, mode nearest/constant; cases: planes with smooth (super-Gaussian edge) amplitude and low-order polynomial OPD on grids 24..56 (even/odd, non-square), '
+RULE = ('histories (8 per quick run, 60 per search): the plane is first rescaled, in the same process, by ANOTHER scale factor with the same output shape (result discarded), then the judged rescale/resample runs and is held to every clause; direct util.rescale calls (30 per quick run) on 12..32 grids with shape= absent / scalar / pair (half to 7 more than the image), real or complex (amplitude times exp(i phase)) smooth images, order 1/3, mode nearest/constant; cases: planes with smooth (super-Gaussian edge) amplitude and low-order polynomial OPD on grids 24..56 (even/odd, non-square), '
         'monolithic or 2..3 segment masks, float or integer mask dtype, uniform / per-axis (px, 1.5 px) / absent pixel scale, scalar '
         'amplitude or OPD, planes already carrying recorded tilt, already rescaled planes (rescale of a rescale), dyadic scale factors '
         '0.5..4 incl. non-integers and 1, resample to target pixel scales and resample refusals (no / non-uniform pixel scale); after '
@@ -109,7 +109,24 @@ def generate(rng, tier):
         out.append(c)
     # direct util.rescale calls: explicit `shape=` (scalar / pair) and complex images (appended last: earlier streams keep their draws)
     for k in range({'quick': 30, 'thorough': 240, 'search': 80}[tier]): out.append(gen_util(rng, k))
+    # histories: the SAME process first rescales the plane by another scale factor that gives the same output shape (result discarded), then
+    # performs the judged call — a result must depend on the current arguments only (anything memoised on shapes alone would go stale)
+    for k in range({'quick': 8, 'thorough': 80, 'search': 60}[tier]): out.append(gen_warm(rng, k))
     return out
+
+def gen_warm(rng, k):
+    n0 = int(rng.integers(24, 49)); n1 = n0 if k % 2 == 0 else int(rng.integers(24, 49))
+    sc = float(rng.choice([0.5, 0.75, 1.25, 1.5, 2.0, 0.7, 1.1, 1.3]))
+    S0, S1 = math.ceil(n0 * sc), math.ceil(n1 * sc)
+    lo, hi = max((S0 - 1) / n0, (S1 - 1) / n1), min(S0 / n0, S1 / n1)      # scales with the same output shape: (lo, hi], contains sc
+    cand = [lo + f * (hi - lo) for f in (0.15, 0.5, 0.85, 1.0)]
+    cand = [w for w in cand if math.ceil(n0 * w) == S0 and math.ceil(n1 * w) == S1 and abs(w - sc) > 0.1 * (hi - lo)]
+    warm = float(max(cand, key=lambda w: abs(w - sc))) if cand else None
+    c = {'kind': 'rescale' if k % 3 else 'resample', 'shape': [n0, n1], 'segments': 1 if k % 4 else 2, 'scale': sc, 'px': 1e-3, 'pxmode': 'uniform',
+         'hseed': int(rng.integers(0, 2**31)), 'amp_scalar': False, 'opd_scalar': False, 'pre_tilt': False, 'int_mask': False, 'twice': False,
+         'propagate': bool(k % 2), 'aperture': 'smooth', 'warm': warm}
+    if c['kind'] == 'resample': c['new_px'] = c['px'] / sc
+    return c
 
 def gen_util(rng, k):
     n0 = int(rng.integers(12, 33)); n1 = n0 if rng.integers(0, 3) == 0 else int(rng.integers(12, 33))
@@ -203,13 +220,14 @@ def _oracle_util(c, io):
 
 def signature(c):
     if c['kind'] == 'util': return f"util {c['shape']} s={c['scale']} shape={c['arg']} complex={c['complex']} order={c['order']} mode={c['mode']}"
-    return _signature_plane(c)
+    return _signature_plane(c) + (f" after-rescale-by={c['warm']}" if c.get('warm') else '')
 def _signature_plane(c): return (f"{c['kind']} {c['shape']} seg={c['segments']} s={c['scale']} px={c['pxmode']} int={c['int_mask']} twice={c['twice']} "
                           f"a0={c['amp_scalar']} o0={c['opd_scalar']} {c.get('aperture', 'smooth')}")
 def nontrivial(c): return c['scale'] != 1.0 or c['segments'] > 1 or c['shape'][0] != c['shape'][1] or c['kind'] == 'refuse'
 def tags(c):
     t = [c['kind'], f"scale:{c['scale']}", f"segments:{min(c['segments'], 55)}{'+' if c['segments'] >= 55 else ''}", 'px:' + c['pxmode']]
     if c.get('extreme'): t.append('extreme:' + c['extreme'])
+    if c.get('warm'): t.append('history:earlier-rescale-same-output-shape-other-scale')
     if c['kind'] == 'util':
         t.append('util-shape:' + ('default' if c['arg'] is None else 'scalar' if len(c['arg']) == 1 else 'pair'))
         t.append('util-complex' if c['complex'] else 'util-real')
@@ -279,6 +297,11 @@ def impl(c):
     with warnings.catch_warnings():
         warnings.simplefilter('ignore')
         try:
+            if c.get('warm'):       # earlier call in the same process: other scale factor, same output shape; its result is discarded
+                P.rescale(c['warm'])
+                lentil.rescale(np.asarray(P.amplitude), scale=c['warm'], shape=None, mask=None, order=3, mode='nearest', unitary=False)
+                lentil.rescale(np.ones(c['shape']), c['warm'], mask=np.ones(c['shape']), order=1, mode='nearest', unitary=False)
+                if _state(P) != before: return {'exc': 'HistoryError', 'msg': 'the warm-up rescale modified the plane', 'untouched': False}
             if c['kind'] in ('resample', 'refuse'): Q = P.resample(c['new_px'])
             else: Q = P.rescale(c['scale'])
             if c['twice']:
